@@ -194,6 +194,31 @@ PROPS["C14"] = {
     "level_note": "Trusted: Lean kernel, translator (mailbox capacities), synctest. The composition with the transports (who is told what when only one direction is dead) is exercised by the system rig, not modelled.",
     "technique": "Lean 4 proof over timed loop models + virtual-time correspondence",
 }
+PROPS["C01"] = {
+    "lean": ["SioVerif.Props.C01"],
+    "components": ["timed:TestDelivery"],
+    "facts": ["eioTypeMessage", "eioPayloadDelimiter", "eioBase64Prefix"],
+    "timeout": {"quick": 900, "thorough": 3000},
+    "rule": "real server and 1..3 real clients on the in-memory network under virtual time, transport settled on long-polling, on WebSocket, or emitting while the "
+            "polling->websocket upgrade is in progress; 7 event names x 5 argument shapes (string, struct, nested map with binary, 0..4 []byte attachments, mixed) with "
+            "attachment / string sizes from {0,1,125,126,1000,32767,32768,32769,65535,65536,65537} and 700000, emitted concurrently in both directions while heartbeats "
+            "run; per emit: delivered to the handler registered for that name exactly once, to no other handler, with arguments equal to those passed; no connection closed. "
+            "The header frame and attachment count of every packet each connection's decoder received (wire tap) are replayed through the Lean reassembly model. "
+            "Non-trivial = every scenario / every tapped connection; distinct by description / request line.",
+    "trusted_base": EXT + ["go1.26.8 testing/synctest", "the composition of the carriage, queue, codec and dispatch theorems into the end-to-end statement is by the argument in Props/C01.lean's header, "
+                           "not one Lean term: the Go glue between the modelled pieces (socket.emit -> manager.packet -> eio.Send, onEIOPacket -> onPacket -> handler call) is exercised, not modelled"],
+    "assumptions": ["equality of arguments is Go reflect.DeepEqual on the decoded handler parameters"],
+    "partial": ["values sent as `any` holding []byte and a binary value shared between two arguments are recorded findings of C09 (D33, D17)",
+                "packets restored after session recovery are C08's (findings D17b, D18)"],
+    "level_text": "Lean 4 theorems for the carriage and the reassembly, for every input: each frame put on a WebSocket decodes to itself; for every partition of the frame stream "
+                  "into non-empty long-polling payloads each payload decodes to exactly the frames put into it (attachments as base64), and the concatenation is the stream "
+                  "sent; Engine.IO control packets interleaved anywhere never reach the Socket.IO decoder; a stream made of well-formed blocks (header frame + the attachments "
+                  "it announces) yields exactly one finished packet per block, in order, and leaves the decoder idle. Together with C02 (blocks are contiguous and in order on the "
+                  "wire), C09 (header, name, placeholders round-trip), C11 (Engine.IO codec) and C05 (routing) this is the end-to-end path. The real stacks deliver every generated "
+                  "emit exactly once and intact, and the real decoder's finished-packet count on the real wire equals the model's.",
+    "level_note": "Trusted: Lean kernel, translator (message type, delimiter), synctest, harness. The glue between the modelled pieces is exercised, not proved.",
+    "technique": "Lean 4 proof (round-trip + induction over the frame stream) + end-to-end delivery scenarios with wire-level model replay",
+}
 PROPS["C03"] = {
     "lean": ["SioVerif.Props.C03"],
     "components": ["timed:TestAcks"],
